@@ -97,7 +97,7 @@ PROPS = {
         trusted=COMMON_TRUST + ['memchr and core::slice::split split exactly at the given byte']),
     'C13': dict(
         groups=['view', 'arith'],
-        rules=['SPLIT-1', 'VIEW-1', 'VIEW-2', 'VIEW-3', 'TRIM-1', 'CHAIN-1', 'VIEW-5'],
+        rules=['SPLIT-1', 'VIEW-1', 'VIEW-2', 'VIEW-3', 'TRIM-1', 'CHAIN-1', 'VIEW-5', 'VIEW-6'],
         only={'CHAIN-1': r'accessors'},
         level='other',
         technique='static analysis of MIR: abstract signatures (callee, arity, separator constant, selector) of the id/description methods, normalised-body comparison of the two SeqLines mappings, control dependence of the borrowed Cow, slot-wise aggregate provenance of owned conversions; affine relations between the offset-handling functions (advance vs. record start, search chain vs. accessor bounds, re-basing of found offsets, marker comparisons) solved symbolically (SCEV)',
@@ -183,7 +183,7 @@ PROPS = {
         trusted=COMMON_TRUST + ['buffer_redux 1.0', 'memchr']),
     'C03': dict(
         groups=['err', 'grow', 'units', 'fsm', 'scan', 'arith'],
-        rules=['FILL-0', 'FILL-1', 'FILL-2', 'FILL-3', 'FILL-4', 'FILL-5', 'FILL-6', 'FILL-7', 'BUF-1', 'BUF-2', 'LOOP-1', 'GROW-2', 'UNIT-1', 'UNIT-3', 'UNIT-3b', 'STAGE-1', 'EPOS-6', 'FSM-P', 'SCAN-1', 'SCAN-2', 'SCAN-3', 'ADV-1'],
+        rules=['FILL-0', 'FILL-1', 'FILL-2', 'FILL-3', 'FILL-4', 'FILL-5', 'FILL-6', 'FILL-7', 'BUF-1', 'BUF-2', 'LOOP-1', 'GROW-2', 'GROW-4', 'GROW-5', 'UNIT-1', 'UNIT-3', 'UNIT-3b', 'STAGE-1', 'EPOS-6', 'FSM-P', 'SCAN-1', 'SCAN-2', 'SCAN-3', 'ADV-1'],
         level='other',
         technique='static analysis of MIR: loop-exit classification of the refill, must-pass-through buffer protocol, unit (dimension) inference for offsets with clash detection, shift-completeness of compaction; induction-variable (scalar-evolution) analysis of the FASTA blank-line scan: recurrences of the offset accumulator and the line counter solved symbolically and compared with the closed forms the property needs; affine relations between the offset-handling functions (advance vs. record start, search chain vs. accessor bounds, re-basing of found offsets, marker comparisons) solved symbolically (SCEV)',
         level_text='Decides the structural reasons why capacity, policy and chunking cannot show: the refill loop only stops on a full buffer, a read of 0 bytes or a non-Interrupted error (short and interrupted reads are invisible); compaction is followed by a refill before any end-of-input verdict; every function that re-bases the buffer rewrites every stored buffer offset by the consumed amount; nothing measured in buffer coordinates flows into a file position, an error position or an error field; the policy sees the real capacity; the FASTA blank-line scan yields the same line, offset and byte wherever the buffer ends (closed forms independent of the number of refills). Equality of complete outcomes between two configurations is relational and value-level and is not decided. ADV-1: the advance moves Position.byte by exactly the displacement of the record start in the buffer.',
@@ -202,7 +202,7 @@ PROPS = {
         trusted=COMMON_TRUST + ['buffer_redux 1.0']),
     'C04': dict(
         groups=['fsm'],
-        rules=['FSM-D', 'FSM-P', 'FSM-S1', 'FSM-S2', 'FSM-S3', 'FSM-S4', 'FSM-S5', 'FSM-E', 'SEEK-1', 'SEEK-4', 'SEEK-5'],
+        rules=['FSM-D', 'FSM-P', 'FSM-V', 'FSM-S1', 'FSM-S2', 'FSM-S3', 'FSM-S4', 'FSM-S5', 'FSM-E', 'SEEK-1', 'SEEK-4', 'SEEK-5'],
         level='other',
         technique='static analysis of MIR: finite-state abstract interpretation of next / read_record_set(_exact) / seek closed under all call histories with ghost variables for the located record and for record-set atomicity; delegation check of the other entry points',
         level_text='There is one state machine per format: read_record_set, both owned iterators and the parallel fill_data are single delegating calls. On the closure of the abstract reader state under every sequence of next, record-set reads (plain and exact-count) and seeks - switches between them and calls after errors included - the reader never starts a search over a pending located record and never advances without one (no loss / duplication by the state machine); at every exit of a set read the pushed offsets and the copied bytes agree, a pushed record is delivered by a Some(Ok) exit, Some(Ok) implies at least one record, the old batch is cleared first and the bytes are copied whole. That a batch ends at the right record and content equality with single reads are value-level and not decided.',
@@ -230,6 +230,9 @@ LAYOUT = {
     'fasta': {'Reader': ['buf_reader', 'buf_pos', 'search_pos', 'position', 'state', 'buf_policy'], 'BufferPosition': ['start', 'seq_pos'], 'RecordSet': [], 'enums': ['fasta::State']},
     'fastq': {'Reader': ['buf_reader', 'buf_pos', 'incomplete_pos', 'position', 'state', 'buf_policy'], 'BufferPosition': ['pos', 'seq', 'sep', 'qual'], 'RecordSet': [], 'enums': ['fastq::State', 'fastq::RecordPos']},
 }
+ENUM_VARIANTS = {'fasta::State': ['New', 'Parsing', 'Incomplete', 'Positioned', 'Finished'],
+                 'fastq::State': ['New', 'Parsing', 'Positioned', 'Finished'],
+                 'fastq::RecordPos': ['Head', 'Seq', 'Sep', 'Qual']}
 NAME_DEPENDENT = ('FSM-', 'SEEK-', 'UNIT-', 'EPOS-', 'STAGE-1', 'GROW-4', 'GROW-5', 'GROW-6', 'GROW-7', 'BUF-2', 'ADV-1', 'CHAIN-1', 'LEN-2', 'LEN-3', 'TPL-4', 'SCAN-3', 'ALLOC-2', 'MARK-1')
 
 
@@ -245,6 +248,12 @@ def layout_guard(prog, R):
             if adt_name == 'Reader' and adt:
                 miss += ['%s.%s (new)' % (adt_name, n) for n in sorted(have - set(want[adt_name]))]
         miss += [e for e in want['enums'] if e not in prog.adts]
+        # the variants of the private state enums (renamed / merged / given payloads: `State::Active { returned: bool }`)
+        for e, vs in ENUM_VARIANTS.items():
+            if e.startswith(fmt + '::') and e in prog.adts:
+                have_v = [(v['name'], len(v['fields'])) for v in prog.adts[e]['variants']]
+                if sorted(have_v) != sorted((n, 0) for n in vs):
+                    miss.append('%s variants %s' % (e, [n if k == 0 else '%s{..}' % n for n, k in have_v]))
         if miss:
             changed[fmt] = miss
     if not changed:
